@@ -206,8 +206,10 @@ Definition dec_format (d : dec) : list N :=
       ++ c_d :: zstr (idx - prefix).
 
 (* ---- ParseDecimal ----------------------------------------------------------------------- *)
-(* exponent is an int64: tmp comes from ParseInt(exp, 10, 32); exponent -= int64(len(fpart))
-   (an int64 subtraction), then "if exponent < math.MinInt32 { return error }"; the final
+(* exponent is an int64: tmp comes from ParseInt(exp, 10, 64) (a written exponent beyond int64
+   is an error); exponent -= int64(len(fpart)) (an int64 subtraction); then, with or without a
+   fraction part, "if exponent < math.MinInt32 || exponent > math.MaxInt32 { return error }":
+   the range check is on the exponent of the value, not on the written one.  The final
    int32(exponent) conversion is written as wrap32. *)
 Definition dec_parse (inp : list N) : res dec :=
   match inp with
@@ -218,20 +220,19 @@ Definition dec_parse (inp : list N) : res dec :=
       | Some (m, e) =>
         match e with
         | [] => Err
-        | _ => match parse_int 32 e with
+        | _ => match parse_int 64 e with
                | Some tmp => Ok (tmp, m)
                | None => Err
                end
         end
       | None => Ok (0, inp)
       end;
-    do '(exponent2, inp2) <-
+    let '(exponent2, inp2) :=
       match split_first is_dot inp1 with
-      | Some (ipart, fpart) =>
-        let e2 := wrap64 (exponent - wrap64 (zlen fpart)) in
-        if e2 <? min_i32 then Err else Ok (e2, ipart ++ fpart)
-      | None => Ok (exponent, inp1)
-      end;
+      | Some (ipart, fpart) => (wrap64 (exponent - wrap64 (zlen fpart)), ipart ++ fpart)
+      | None => (exponent, inp1)
+      end in
+    if (exponent2 <? min_i32) || (exponent2 >? max_i32) then Err else
     match set_string inp2 with
     | None => Err
     | Some n =>
